@@ -71,11 +71,12 @@ def fmt_step(s, dur=None):
                                           s["dur"] if dur is None else dur)
 
 
-def main_source(slot, code):
+def main_source(slot, code, hdrd="."):
     a = code // 4
     bad = "## cemit 'this is not C;\\n'\n" if code >= 900 else ""
     return ("require 'cval%d'\n"
             "## cinclude '\"c08hdr.h\"'\n"
+            "## cincdir '%s'\n"
             "local HV: cint <cimport,nodecl>\n"
             "## local d = DVAL or 0\n"
             "## cemit '#ifdef __clang__\\n#define CCID 1\\n#else\\n#define CCID 0\\n#endif\\n#ifndef K\\n#define K 0\\n#endif\\n'\n"
@@ -83,7 +84,7 @@ def main_source(slot, code):
             "local CCID: cint <cimport,nodecl>\n"
             "local K: cint <cimport,nodecl>\n"
             "local MAINVAL <comptime> = %d\n"
-            "print('code', MAINVAL*4 + MODVAL*2 + #[d]#, 'K', K, 'cc', CCID + 10*HV)\n" % (slot, bad, a))
+            "print('code', MAINVAL*4 + MODVAL*2 + #[d]#, 'K', K, 'cc', CCID + 10*HV)\n" % (slot, hdrd, bad, a))
 
 
 def mod_source(code):
@@ -152,7 +153,7 @@ class Replayer:
         return (mtime_ns + self.shift * 10**9 - self.T0 * 10**9) // (10**9 // TPS)
 
     def args_of(self, s, cache, outp):
-        a = ["--verbose", "--cache-dir", cache, "--cc", self.wrapper, "--cflags=-DK=%d -I %s" % (s["cmd"], self.hdrd), "-DDVAL=%d" % (s["code"] % 2)]
+        a = ["--verbose", "--cache-dir", cache, "--cc", self.wrapper, "--cflags=-DK=%d" % s["cmd"], "-DDVAL=%d" % (s["code"] % 2)]
         if s["cmd"] >= 100:
             a += ["--release"]
         if s["nohead"]:
@@ -167,7 +168,7 @@ class Replayer:
 
     def prepare_sources(self, s):
         sdir = os.path.join(self.hdir, "srcB" if (s["code"] // 4) % 2 == 1 else "srcA")
-        write_if_differs(os.path.join(sdir, "slot%d.nelua" % s["slot"]), main_source(s["slot"], s["code"]))
+        write_if_differs(os.path.join(sdir, "slot%d.nelua" % s["slot"]), main_source(s["slot"], s["code"], self.hdrd))
         write_if_differs(os.path.join(sdir, "cval%d.nelua" % s["slot"]), mod_source(s["code"]))
         write_if_differs(os.path.join(self.hdrd, "c08hdr.h"), "#define HV %d\n" % (s["cc"] // 10))
         return sdir
@@ -197,8 +198,11 @@ class Replayer:
         self.set_cc(s["cc"] % 10)
         sdir = self.prepare_sources(s)
         cfile = os.path.join(self.cache, "slot%d.c" % s["slot"])
-        outp = os.path.join(self.outd, "o%d" % s["out"]) if s["out"] is not None and s["k"] != "C" else None
+        outp = os.path.join(self.outd, "o%d" % s["out"]) if s["out"] is not None else None
         binp = outp or os.path.join(self.cache, "slot%d" % s["slot"])
+        if s["k"] == "C" and outp:          # --code -o X writes X.c and nothing else
+            outp = outp + "_code"
+            binp = os.path.join(self.cache, "slot%d" % s["slot"])
         before = (self._stat(cfile), self._stat(binp))
         kill = s["k"] == "I"
         rc, out, err = self.nelua(self.args_of(s, self.cache, outp), sdir, kill=kill)
@@ -218,7 +222,7 @@ class Replayer:
         g = "using cached generated " in out
         b = "using cached binary " in out
         prog_out = out
-        if outp and rc == 0:   # -o compiles only: execute the artefact that was served
+        if outp and rc == 0 and s["k"] != "C":   # -o compiles only: execute the artefact that was served
             try:
                 p = subprocess.run([outp], stdout=subprocess.PIPE, stderr=subprocess.PIPE, text=True, errors="replace", timeout=60)
                 prog_out = p.stdout
